@@ -2387,3 +2387,30 @@ async fn d28b_windowed_history_is_the_unfiltered_history_restricted_to_the_windo
 		let _ = tokio::time::timeout(std::time::Duration::from_secs(10), tree.close()).await;
 	}
 }
+
+// D55: an insert that does not fit exhausts the arena of the (fresh, still empty) active memtable; rotate_memtable
+// returns early for an empty memtable, so every later commit fails with ArenaFull until the store is reopened
+#[tokio::test(flavor = "multi_thread")]
+async fn d55_oversized_commit_bricks_the_store() {
+	let d = td();
+	let opts = mk_opts(d.path().to_path_buf(), |o| {
+		o.max_memtable_size = 64 * 1024;
+	});
+	let tree = Tree::new(Arc::clone(&opts)).unwrap();
+	put(&tree, b"before", b"1").await;
+	let big = vec![7u8; 1024 * 1024];
+	let mut tx = tree.begin().unwrap();
+	tx.set(b"big", &big).unwrap();
+	assert!(tx.commit().await.is_err(), "oversized commit unexpectedly succeeded");
+	for i in 0..3 {
+		let mut tx2 = tree.begin().unwrap();
+		tx2.set(format!("after{i}").as_bytes(), b"2").unwrap();
+		let r2 = tx2.commit().await;
+		assert!(r2.is_ok(), "D55: commit {i} after the failed one is refused: {:?}", r2);
+	}
+	let rtx = tree.begin().unwrap();
+	assert_eq!(rtx.get(b"before").unwrap().as_deref(), Some(&b"1"[..]));
+	assert_eq!(rtx.get(b"after2").unwrap().as_deref(), Some(&b"2"[..]));
+	drop(rtx);
+	let _ = tokio::time::timeout(std::time::Duration::from_secs(20), tree.close()).await;
+}
